@@ -623,7 +623,8 @@ def classify(kind, entry, mk_sig, chan_tag, mcls, raised, changed):
     Failures with one root cause share one signature; anything else keeps the generic, fully specific form."""
     ch = norm_paths(changed)
     if kind == "CVIART":
-        # CVIART.fit stores X before validating; partial_fit / predict are BaseART's and validate the wrapper,
+        # regression guards (C18-d..g, fixed in /repo c39976e, 27829fb): CVIART.fit stored X before validating;
+        # partial_fit / predict were BaseART's and validated the wrapper,
         # not the base module
         if entry == "fit" and raised == "assert" and ch == {"data"}:
             return "CVIART.fit:rejected:state-changed:data"
